@@ -446,6 +446,7 @@ def represent(rng, sample, edges, queries, allow_tuple=True):
     srep = choose_rep(rng, sample, pal, allow_tuple)
     if srep is None:
         return None
+    qv = [(k, v) for k, v in qv if query_ok(srep, v)]
     qtypes = [rng.choice(eligible(pal, v)) for _, v in qv]
     # edges: optionally first rounded into a low-precision floating type (the rounded numbers ARE the logical edges)
     edges = [lv(c) for c in edges]
@@ -459,6 +460,12 @@ def represent(rng, sample, edges, queries, allow_tuple=True):
     return dict(sample=list(sample), edges=edges, queries=[k for k, _ in qv], srep=srep, erep=erep, qtypes=qtypes)
 
 
+def query_ok(srep, v):
+    """numpy cannot compare np.bool_ with a Python int outside the C long range (OverflowError): such queries are not
+    put to a sample that holds np.bool_ scalars"""
+    return not (exact(v) >= 2 ** 63 and "np.bool_" in rep_types(srep))
+
+
 def typed_queries(case):
     return [mk(t, Fraction(k, 2)) for k, t in zip(case["queries"], case["qtypes"])]
 
@@ -469,7 +476,7 @@ def oracle_qtypes(sample, srep, qvals):
     floats = [t for t in pal if t in FLOAT_TYPES]
     out = []
     for j, v in enumerate(qvals):
-        if not all(can(t, v) for t in floats):
+        if not all(can(t, v) for t in floats) or not query_ok(srep, v):
             out.append(None)
             continue
         el = eligible(pal, v)
